@@ -15,6 +15,7 @@ RULE = (
     "BaseProject, resume there) is run at generated pause points in the quick tier and at every pause point in the "
     "thorough tier, on the model restricted to settings that are part of the saved format (probed at start-up by "
     'One case in three runs with simulate(unit_time=2 or 3), so that pause times fall between step times. '
+    'Conveyor-line cases (workplaces chained by input links) go through the JSON route as well. '
     "round-tripping a model with non-default settings). Thorough also pauses twice. Non-trivial = a pause strictly "
     "inside the run at which some task is WORKING and another still NONE; distinct by (spec hash)."
 )
